@@ -136,6 +136,18 @@ Theorem c04_crashed_stack_answers : forall t objs order msgs,
                  msgs (t0, [])) = map crashed_reply msgs.
 Proof. exact c04_crashed_stack_answers_lemma. Qed.
 
+(* Loopback streams.  The destructors run without a current runtime, where
+   send_loopback is a no-op: of what they "send", nothing addressed to the host
+   itself reaches the wire (no task is spawned that could outlive the
+   incarnation), and both ends of every loopback stream are released all the
+   same, being entries of this host owned by objects of this host. *)
+Theorem c04_loopback_silent : forall t objs order p,
+  owns t objs -> Permutation objs order -> rhost p = self t ->
+  let ms := on_wire (self t) (snd (drop_all t order)) in
+  ~ In (MFin (self t) p) ms /\ ~ In (MRst (self t) p) ms /\
+  streams (fst (drop_all t order)) = [].
+Proof. exact c04_loopback_silent_lemma. Qed.
+
 (* The flag that selects those hosts: set by Sim::crash exactly when software
    was running (a host whose software had finished is not drained), cleared by
    bounce, never touched by a step or a registration. *)
@@ -232,5 +244,6 @@ Print Assumptions c04_tables_released.
 Print Assumptions c04_owns_api.
 Print Assumptions c04_crashed_stack_answers.
 Print Assumptions c04_crashed_flag.
+Print Assumptions c04_loopback_silent.
 Print Assumptions c04_nonvacuous_core.
 Print Assumptions c04_nonvacuous_tables.
